@@ -184,6 +184,7 @@ class WordEval:
 
 def check(ctx):
     repo = ctx.repo
+    ctx.rule("R01.8", "the current scale K0 the solver reads from the device is recomputed on every access, never memoised", 6)
     ctx.rule("R01.7", "arrays handed to the Runner are fresh: no TDGLSolver/MeshOperators method returns a view of an attribute-held buffer", 12)
     ctx.rule("R01.1", "continuity: D(Js+Jn) - B mu_b == 0 as operator words, using mu = L^-1 rhs and L = D G", 2)
     ctx.rule("R01.2", "mu_laplacian == divergence @ mu_gradient with no fixed rows and no link variable", 1)
@@ -243,6 +244,8 @@ def check(ctx):
            consequence="one sparse-solver option computes a different potential")
 
     terminal_density(ctx)
+    from .c13 import scales_not_memoised
+    scales_not_memoised(ctx, "R01.8")
     j_scale(ctx)
     balance_test(ctx)
     from ..effects import fresh_outputs
